@@ -175,3 +175,26 @@ Theorem local_in_band_binary64 : forall (amul : Q -> Q -> Q) (cast : Q -> Q) inp
   end.
 Proof. exact local_in_band_binary64_lemma. Qed.
 Print Assumptions local_in_band_binary64.
+
+(* ---------------------------------------------------------------- S5 for Ridler-Calvard and MCT (partial) *)
+From Centro Require Import Model.RidlerQ Proofs.ThresholdBracket.
+(* Full statement of S5 for these two methods: min masked <= threshold <= max masked.
+   Proved (rc_iter_bracket_partial): the Ridler-Calvard fixed-point iteration as written, over Q, never
+   leaves [a, b] once its starting value is inside (every iterate is the mean of two class means).
+   Missing: the monotone log / exp transfer (no rational model) and a correspondence tying Model.RidlerQ to
+   the code; the starting value is otsu of the stretched data, covered by otsu_bracket. *)
+Theorem rc_iter_bracket_partial : forall fuel delta a b im,
+  (forall x, In x im -> a <= x /\ x <= b) ->
+  forall pre t0 t, a <= t0 /\ t0 <= b -> rc_iter fuel delta im pre t0 = Some t -> a <= t /\ t <= b.
+Proof. exact rc_iter_bracket_partial_lemma. Qed.
+Print Assumptions rc_iter_bracket_partial.
+
+(* Proved (mct_bracket_partial): the final formula min + my_bin (max - min) / (bins - 1) is inside [min, max]
+   for 0 <= my_bin <= bins - 2.  Missing lemma: 1 <= argmax(mct), i.e. my_bin >= 0 (tail sums of the
+   deviations from the mean are positive wherever 0 < n_i < n, and mct[0] is reset to 0); sqrt has no
+   rational model, so the arg-max itself is not modelled. *)
+Theorem mct_bracket_partial : forall vmin vmax bins my_bin,
+  vmin <= vmax -> (2 <= bins)%Z -> (0 <= my_bin <= bins - 2)%Z ->
+  vmin <= mct_value vmin vmax bins my_bin /\ mct_value vmin vmax bins my_bin <= vmax.
+Proof. exact mct_bracket_partial_lemma. Qed.
+Print Assumptions mct_bracket_partial.
